@@ -7,7 +7,7 @@ from collections import Counter
 
 import numpy as np
 
-from .. import gen, geom, models
+from .. import gen, geom, models, snap
 from ..core import signature
 from ..monitor import Monitor
 
@@ -287,6 +287,20 @@ def parts_are_frame_ranges(parts, P, ctx, what, wit, label):
     return True
 
 
+def roundtrip_parts(parts, P, ctx, what, wit, label):
+    """Every part is a trajectory of its own: switched to displacements and back it still holds its frames."""
+    pos = 0
+    for pi, part in enumerate(parts):
+        before = snap.traj_positions_raw(part)
+        L = len(before)
+        _ = part.displacements
+        after = np.asarray(part.positions)
+        ok = after.shape == before.shape and float(geom.circ_diff(after, before).max() if after.size else 0.0) <= 1e-9
+        ctx.check(bool(ok), f'{what}: part {pi} of {label} no longer holds its own frames after a displacements -> positions round trip (max circular deviation {float(geom.circ_diff(after, before).max()) if after.shape == before.shape and after.size else float("nan"):.3e})', wit)
+        pos += L
+    ctx.count('split_parts_round_tripped', len(parts))
+
+
 def check_trajectory_split(traj, P, ctx, what, rng, wit):
     T = len(P)
     if T < 3:
@@ -324,6 +338,7 @@ def check_trajectory_split(traj, P, ctx, what, rng, wit):
     else:
         gaps = [b[0] - a[1] for a, b in zip(ranges[:-1], ranges[1:])]
         ctx.check(all(g == 0 for g in gaps) and ranges[0][0] == 0 and ranges[-1][1] >= T - 1, f'{what}: Trajectory.split({n}) parts {ranges} do not tile the source of {T} frames (gaps {gaps}; at most the last frame may stay unused)', wit)
+    roundtrip_parts(parts, P, ctx, what, wit, f'Trajectory.split({n}, equal_parts={eq})')
     ctx.count('trajectory_splits')
 
 
